@@ -154,6 +154,45 @@ fn f64_try_from_slice_contract() {
     }
 }
 
+/// from_random_bytes of the quadratic and cubic extensions: Some exactly for byte strings of the element
+/// size whose every 8-byte coordinate is canonical; the coordinates are canonical words
+#[kani::proof]
+#[kani::stub(alloc::fmt::format, fmt_stub)]
+fn f64_ext_from_random_bytes_contract() {
+    use crate::field::{CubeExtension, QuadExtension};
+    let bytes: [u8; 26] = kani::any();
+    let len: usize = kani::any();
+    kani::assume(len <= 26);
+    kani::cover!(len == 16);
+    kani::cover!(len == 24);
+    let mut w = [0u64; 3];
+    let mut k = 0;
+    while k < 3 {
+        let mut b8 = [0u8; 8];
+        b8.copy_from_slice(&bytes[8 * k..8 * k + 8]);
+        w[k] = u64::from_le_bytes(b8);
+        k += 1;
+    }
+    let q = <QuadExtension<BaseElement> as Randomizable>::from_random_bytes(&bytes[..len]);
+    match q {
+        Some(e) => {
+            assert!(len == 16 && w[0] < M && w[1] < M);
+            let c = e.to_base_elements();
+            assert!(c[0].0 < M && c[1].0 < M);
+        },
+        None => assert!(len != 16 || w[0] >= M || w[1] >= M),
+    }
+    let c3 = <CubeExtension<BaseElement> as Randomizable>::from_random_bytes(&bytes[..len]);
+    match c3 {
+        Some(e) => {
+            assert!(len == 24 && w[0] < M && w[1] < M && w[2] < M);
+            let c = e.to_base_elements();
+            assert!(c[0].0 < M && c[1].0 < M && c[2].0 < M);
+        },
+        None => assert!(len != 24 || w[0] >= M || w[1] >= M || w[2] >= M),
+    }
+}
+
 #[kani::proof]
 #[kani::stub(alloc::fmt::format, fmt_stub)]
 fn f64_into_ints_contract() {
